@@ -77,20 +77,41 @@ class Footprint(Harness):
                 dict.__setitem__(d1, pid, copy.deepcopy(K1.MASTER_DB))
         snap = {pid: copy.deepcopy(dict.__getitem__(d2, pid)) for pid in dict.keys(d2) if pid != me}
 
-        class Thr:
+        class T:
+            def __init__(self_, ident):
+                self_.ident, self_.native_id, self_.name = ident, ident + 7000, 'worker-%d' % ident     # OS thread ids differ from Python idents
+
+            def is_alive(self_): return True
+
+        class ThrMod:
+            """threading stand-in: the calling thread is `me`; all three workers are alive"""
             @staticmethod
-            def get_ident():
-                return me
+            def get_ident(): return me
+            @staticmethod
+            def get_native_id(): return me + 7000
+            @staticmethod
+            def enumerate(): return [T(i) for i in ids]
+            @staticmethod
+            def current_thread(): return T(me)
+            @staticmethod
+            def active_count(): return len(ids)
+
+            def __getattr__(self_, name):
+                import threading
+                return getattr(threading, name)
+        Thr = ThrMod()
         o2, o1 = K2.DB_PER_THREAD, K1.DB_PER_THREAD
         K2.DB_PER_THREAD, K1.DB_PER_THREAD = d2, d1
         try:
             with AE.patched(M.ssh2_kexdb, threading=Thr), AE.patched(M.ssh1_kexdb, threading=Thr):
                 r = guarded(self.edit, M, inp)
-                K2.thread_exit()
-                K1.thread_exit()
+                for kx in (K2, K1):
+                    rx = guarded(kx.thread_exit)
+                    if isinstance(rx, Exc) and not isinstance(r, Exc):
+                        r = rx
         finally:
             K2.DB_PER_THREAD, K1.DB_PER_THREAD = o2, o1
-        others_same = all(dict.__getitem__(d2, pid) == snap[pid] for pid in snap)
+        others_same = all(dict.__contains__(d2, pid) and dict.__getitem__(d2, pid) == snap[pid] for pid in snap)
         return {'r': r if isinstance(r, Exc) else None, 'touched': sorted(set(d2.touched + d1.touched)), 'others_same': others_same,
                 'mine_left': dict.__contains__(d2, me) or dict.__contains__(d1, me)}
 
@@ -261,6 +282,19 @@ class ConfigIsolation(Harness):
         yield 'shared-configuration-untouched', obs['shared_host'] == '' and obs['shared_port'] == 22 and obs['shared_errors'] == 0
 
 
+from props.c18 import MainRun as _MainRun
+
+
+class TargetLoop(_MainRun):
+    """real main() over a targets file mixing 'host' and 'host:port' lines (symbolic hosts, ports and -p): the endpoint resolved and dialled for each line is
+    what that line alone denotes - it does not depend on which lines precede it."""
+    prop, ob = PROP, 'O4'
+
+    def __init__(self, shape, with_p, nport=2):
+        super().__init__(shape, with_p, nport)
+        self.name = 'targetloop-' + self.name[len('mainrun-'):]
+
+
 def tasks(tier):
     T = []
     for tid in range(3):
@@ -271,6 +305,9 @@ def tasks(tier):
             for json in (False, True):
                 T.append(WorkerStep(first, second, json))
     T.append(ConfigIsolation())
+    for shape in [('host:port', 'host'), ('host', 'host:port'), ('host:port', 'host:port', 'host'), ('host:port', 'blank', 'host', 'host')]:
+        for with_p in (False, True):
+            T.append(TargetLoop(shape, with_p))
     return T
 
 
@@ -281,14 +318,16 @@ def harness_by_name(name, params):
         return Footprint(p['tid'], p['editor'])
     if k == 'workerstep':
         return WorkerStep(p['first'], p['second'], p['json'])
+    if k == 'targetloop':
+        return TargetLoop(p['shape'], p['with_p'], p.get('nport', 2))
     return ConfigIsolation()
 
 
 META = {
-    'functions': ['SSH2_KexDB.get_db/thread_exit', 'SSH1_KexDB.get_db/thread_exit', 'target_worker_thread', 'audit()', 'post_process_findings', 'HostKeyTest.perform_test',
+    'functions': ['main() target loop', 'SSH2_KexDB.get_db/thread_exit', 'SSH1_KexDB.get_db/thread_exit', 'target_worker_thread', 'audit()', 'post_process_findings', 'HostKeyTest.perform_test',
                   'GEXTest.run', 'output()', 'Policy.evaluate'],
     'bounds': 'three thread ids with a symbolic presence pattern in the shared map x six editors (footprint); ordered pairs of three target archetypes (Terrapin-marked, '
-              'marker-protected, plain) x text/JSON with a symbolic unknown cipher name riding along (inductive step on a reused thread); two policy tasks sharing one configuration',
+              'marker-protected, plain) x text/JSON with a symbolic unknown cipher name riding along (inductive step on a reused thread); two policy tasks sharing one configuration; targets files of 2..4 lines mixing host / host:port lines through the real main()',
     'outside': ['REAL thread scheduling and socket timing: replaced by footprint + commutation + inductive step; the commutation argument (disjoint keys, GIL-atomic dict operations) is '
                 'reasoning by reading, not solver output', 'class attributes of DHEat mutated by --conn-rate-test'],
     'stubs': ['threading.get_ident: fixed id per task', 'socket: scripted connections', 'json.dumps: capturing stub'],
